@@ -44,6 +44,19 @@ theorem mahalanobis {P S : Matrix n n ℝ} (hP : P.PosDef) (hS : S * Sᵀ = P) (
   rw [h2, ← Matrix.vecMul_transpose, ← Matrix.dotProduct_mulVec, Matrix.mulVec_mulVec,
     Matrix.mul_nonsing_inv _ hStu, Matrix.one_mulVec]
 
+/-- the squared Mahalanobis distance of a draw moved by `d` -/
+theorem mahalanobis_shift {P S : Matrix n n ℝ} (hP : P.PosDef) (hS : S * Sᵀ = P) (z d : n → ℝ) :
+    (S *ᵥ z + d) ⬝ᵥ (P⁻¹ *ᵥ (S *ᵥ z + d)) = z ⬝ᵥ z + 2 * (d ⬝ᵥ (P⁻¹ *ᵥ (S *ᵥ z))) + d ⬝ᵥ (P⁻¹ *ᵥ d) := by
+  have hsymm : (P⁻¹)ᵀ = P⁻¹ := by
+    have : Pᵀ = P := by
+      have h := hP.isHermitian.eq
+      rwa [Matrix.conjTranspose_eq_transpose_of_trivial] at h
+    rw [Matrix.transpose_nonsing_inv, this]
+  have hcross : (S *ᵥ z) ⬝ᵥ (P⁻¹ *ᵥ d) = d ⬝ᵥ (P⁻¹ *ᵥ (S *ᵥ z)) := by
+    rw [Matrix.dotProduct_mulVec, ← Matrix.mulVec_transpose, hsymm, dotProduct_comm]
+  rw [Matrix.mulVec_add, add_dotProduct, dotProduct_add, dotProduct_add, mahalanobis hP hS z, hcross]
+  ring
+
 end sqrt
 
 /-- the Gaussian density as the code evaluates it (`exp` of the log-density) in product form -/
